@@ -12,7 +12,8 @@
             (code: `snapshot.is_transaction_aborted(tuple.xmin())` → remove the tuple);
          a row deleted by a transaction that committed (`s.cb deleter`) is dropped, delete marks of aborted deleters are erased
             (shipped code: `tuple.is_deleted()` → remove, whoever the deleter was: flag `vacuumRemovesUncommittedDelete`);
-         of the remaining chain the head is kept and the older versions as long as their creator id is ≥ `h` (`vaccum_with`);
+         of the remaining chain the head is kept, the older versions as long as their creator id is ≥ `h`, and the newest version
+            below `h` unless the head or a kept version is already below `h` (`vaccum_with`);
     5. finished transactions with id < `h` are forgotten by the coordinator.  In this model the transaction table is a list indexed
        by id, and a forgotten id is read by every later snapshot exactly like a committed one (`is_committed_before_snapshot`:
        not above `xmax`, not active, not aborted).  Forgetting a committed transaction is therefore the identity; forgetting an
@@ -56,10 +57,18 @@ def forgetAux (h : Nat) : List Txn → Nat → List Txn
   | t :: ts, i =>
     (if i < h ∧ t.status = .aborted then { t with status := .committed } else t) :: forgetAux h ts (i + 1)
 
-/-- `Tuple::vaccum_with`: the head version stays; older versions stay while their creator id is ≥ the horizon -/
+/-- `Tuple::vaccum_with` below the head: a version whose creator id is ≥ the horizon stays; of the versions below the horizon
+    the newest one stays too unless a newer kept version (the head included) is already below the horizon (`kept`); the walk
+    stops at the first version that goes -/
+def trimTail (h : Nat) : Bool → List Version → List Version
+  | _, [] => []
+  | kept, w :: ws =>
+    if decide (h ≤ w.creator) || !kept then w :: trimTail h (kept || decide (w.creator < h)) ws else []
+
+/-- `Tuple::vaccum_with`: the head version stays, then `trimTail` -/
 def trimChain (h : Nat) : List Version → List Version
   | [] => []
-  | v :: tl => v :: tl.takeWhile (fun w => decide (h ≤ w.creator))
+  | v :: tl => v :: trimTail h (decide (v.creator < h)) tl
 
 /-- the versions VACUUM considers alive: those whose creator is not aborted in the vacuum snapshot (the shipped pass looks at the
     header's creator only) -/
@@ -83,6 +92,18 @@ def Row.vacuum (V : VDefects) (s : Snapshot) (h : Nat) (r : Row) : Option Row :=
 
 def vacuumRows (V : VDefects) (s : Snapshot) (h : Nat) (rows : List Row) : List Row := rows.filterMap (Row.vacuum V s h)
 
+/-- the same pass over an entry of a physical unique index (a tuple without history; the index is only consulted when one of
+    the index defects of `Db.Defects` is on) -/
+def IxEntry.vacuum (V : VDefects) (s : Snapshot) (e : IxEntry) : Option IxEntry :=
+  if s.aborted.contains e.xmin then none
+  else match e.xmax with
+    | Option.none => some e
+    | some x =>
+      if V.vacuumRemovesUncommittedDelete || s.cb x then none
+      else some { e with xmax := Option.none }
+
+def vacuumIndex (V : VDefects) (s : Snapshot) (ix : Index) : Index := ix.filterMap (IxEntry.vacuum V s)
+
 /-- storage measure: stored versions + delete marks -/
 def Row.size (r : Row) : Nat := r.versions.length + r.deleters.length
 
@@ -93,26 +114,27 @@ def sizeRows : List Row → Nat
 def State.size (σ : State) : Nat := sizeRows σ.rows
 
 /-- the frame shared by VACUUM and by "abort everything" (reopen): `clean` is what happens to the rows, `forget` to the
-    transaction table, `keepSessions` whether the sessions survive -/
+    transaction table, `cleanIx` to the unique indexes, `keepSessions` whether the sessions survive -/
 def State.vacuumWith (D : Defects) (keepSessions : Bool) (clean : Snapshot → Nat → List Row → List Row)
-    (forget : Nat → List Txn → List Txn) (σ : State) : State :=
+    (forget : Nat → List Txn → List Txn) (cleanIx : Snapshot → Index → Index) (σ : State) : State :=
   let σ1 : State := { σ with txns := abortAll σ.txns, sessions := if keepSessions then σ.sessions else [] }
   let h := σ1.lastCommitted
   let σ2 := (σ1.beginTxn D).1
   let vt := (σ1.beginTxn D).2
-  let σ3 : State := { σ2 with rows := clean (σ2.snapOf vt) h σ2.rows, txns := forget h σ2.txns }
+  let σ3 : State := { σ2 with rows := clean (σ2.snapOf vt) h σ2.rows, txns := forget h σ2.txns,
+                              index := cleanIx (σ2.snapOf vt) σ2.index }
   let σ5 := (σ3.commitTxn vt).1
   { σ5 with clock := σ5.clock + 1 }
 
 /-- `Database::vacuum` -/
 def State.vacuum (D : Defects) (V : VDefects) (σ : State) : State :=
   σ.vacuumWith D V.vacuumLeavesSessionsOpen (vacuumRows V)
-    (fun h txns => if V.cleanupForgetsAborted then forgetAux h txns 0 else txns)
+    (fun h txns => if V.cleanupForgetsAborted then forgetAux h txns 0 else txns) (vacuumIndex V)
 
 /-- every open transaction is rolled back, its session ended, and one empty transaction runs: a clean close followed by
     `Database::open` (sessions dropped, recovery transaction) — and VACUUM without its physical part -/
 def State.quiesce (D : Defects) (σ : State) : State :=
-  σ.vacuumWith D false (fun _ _ rows => rows) (fun _ txns => txns)
+  σ.vacuumWith D false (fun _ _ rows => rows) (fun _ txns => txns) (fun _ ix => ix)
 
 /-! ## histories with VACUUM and reopen -/
 
